@@ -4,26 +4,39 @@
 #[doc(hidden)]
 #[macro_export]
 macro_rules! munch_expr {
-    // 1. Found ->
-    ([$($lhs:tt)*] -> $($rhs:tt)*) => {
+    // `->` and `<->` share the lowest precedence level. As in the language,
+    // `->` is right-associative and takes everything to its right, `<->`
+    // groups with what precedes it: `a <-> b -> c` is `(a <-> b) -> c`.
+    // So the first `->` splits the expression, and only a part without `->`
+    // is split on `<->`.
+    // 1. Found the first ->
+    (@implies [$($lhs:tt)*] -> $($rhs:tt)*) => {
         $crate::Expr::Implies(
-            Box::new($crate::expr!($($lhs)*)),
+            Box::new($crate::munch_expr!(@iff [] $($lhs)*)),
             Box::new($crate::expr!($($rhs)*))
         )
     };
-    // 2. Found <->
-    ([$($lhs:tt)*] <-> $($rhs:tt)*) => {
+    // 2. Recurse
+    (@implies [$($accum:tt)*] $head:tt $($tail:tt)*) => {
+        $crate::munch_expr!(@implies [$($accum)* $head] $($tail)*)
+    };
+    // 3. No -> at this level
+    (@implies [$($all:tt)*]) => {
+        $crate::munch_expr!(@iff [] $($all)*)
+    };
+    // 4. Found <->
+    (@iff [$($lhs:tt)*] <-> $($rhs:tt)*) => {
         $crate::Expr::Iff(
-            Box::new($crate::expr!($($lhs)*)),
-            Box::new($crate::expr!($($rhs)*))
+            Box::new($crate::Expr::from($($lhs)*)),
+            Box::new($crate::munch_expr!(@iff [] $($rhs)*))
         )
     };
-    // 3. Recurse
-    ([$($accum:tt)*] $head:tt $($tail:tt)*) => {
-        $crate::munch_expr!([$($accum)* $head] $($tail)*)
+    // 5. Recurse
+    (@iff [$($accum:tt)*] $head:tt $($tail:tt)*) => {
+        $crate::munch_expr!(@iff [$($accum)* $head] $($tail)*)
     };
-    // 4. Base case
-    ([$($val:tt)*]) => {
+    // 6. Base case
+    (@iff [$($val:tt)*]) => {
         $crate::Expr::from($($val)*)
     };
 }
@@ -31,7 +44,7 @@ macro_rules! munch_expr {
 #[macro_export]
 macro_rules! expr {
     ($($t:tt)*) => {
-        $crate::munch_expr!([] $($t)*)
+        $crate::munch_expr!(@implies [] $($t)*)
     };
 }
 
